@@ -87,6 +87,11 @@ type DataPlan struct {
 	Status     []StatusOp
 	Panic      bool // panic instead of returning
 	PanicEarly bool // panic before reading
+	// ReadOn: a backend that goes on reading after a reader error (as one that
+	// drains r before returning does): everything it is handed is recorded, the
+	// reader result stays that of the FIRST failure, "+EOF" appended if the
+	// reader later reports end-of-file after all
+	ReadOn bool
 }
 
 // ClearScript drops every pending scripted decision.
@@ -556,10 +561,24 @@ func readPlan(r io.Reader, p DataPlan) (got []byte, rerr string, raw error) {
 				if err == io.EOF {
 					return got, "EOF", nil
 				}
+				first, firstS := err, err.Error()
 				if errors.Is(err, io.ErrUnexpectedEOF) {
-					return got, "unexpected EOF", err
+					firstS = "unexpected EOF"
 				}
-				return got, err.Error(), err
+				if p.ReadOn {
+					for tries := 0; tries < 64; tries++ {
+						n, err := r.Read(buf)
+						got = append(got, buf[:n]...)
+						if err == io.EOF {
+							firstS += "+EOF"
+							break
+						}
+						if err != nil && n == 0 && tries >= 3 {
+							break
+						}
+					}
+				}
+				return got, firstS, first
 			}
 		}
 	}
